@@ -354,8 +354,12 @@ REQS = ["prelude", "arithmetic.int", "verif.test", "x"]
 
 class Gen:
     def __init__(self, rng, *, allow_vars=True, allow_linear=True, allow_rowvar=False,
-                 allow_ext=True, allow_opaque=True, allow_sarray=True, copy_only=False):
+                 allow_ext=True, allow_opaque=True, allow_sarray=True, copy_only=False, type_varg=False):
         self.r = rng
+        #: also offer a variable ARGUMENT for a parameter of kind Type (the reference implementation spells that use
+        #: as a type variable and calls the other spelling malformed, but it is schema-valid and the Python model
+        #: builds it; only the codec checks ask for it)
+        self.type_varg = type_varg
         self.allow_vars = allow_vars
         self.allow_linear = allow_linear and not copy_only
         self.allow_rowvar = allow_rowvar
@@ -394,7 +398,7 @@ class Gen:
         """An argument that fits parameter p."""
         r = self.r
         k = p[0]
-        if r.random() < 0.08 and self.allow_vars and k != "T":
+        if r.random() < 0.08 and self.allow_vars and (k != "T" or self.type_varg):
             return ["varg", r.randint(0, 3), p]
         if k == "T":
             if p[1] == "C":
